@@ -432,9 +432,9 @@ def r4_raises(program, rep):
 
 
 def check(program, rep):
-    r1_helpers(program, rep)
-    r2_r3(program, rep)
-    r4_raises(program, rep)
+    rep.guard("C05-R1", r1_helpers, program, rep)
+    rep.guard("C05-R2", r2_r3, program, rep)
+    rep.guard("C05-R4", r4_raises, program, rep)
     return finish(rep, program, EXPLANATION, NOT_DECIDED,
                   trusted=["ORDTYPE evaluator (comparison-only fragment)",
                            "floor-division axioms for a divisor >= 1"])
